@@ -221,6 +221,7 @@ static void gen(plan_t *p, rng_t *r)
     plan_knob(p, "viaclass", rng_chance(r, 1, 3));
     plan_knob(p, "hard", hard);
     plan_knob(p, "alloc.fill", rng_range(r, 0, 4));
+    plan_knob(p, "alloc.zero", rng_chance(r, 1, 4)); plan_knob(p, "alloc.realloc0", rng_chance(r, 1, 4));      /* the two readings ISO C allows for a request of no bytes */
     plan_knob(p, "alloc.realloc", rng_chance(r, 1, 2) ? REALLOC_MOVE : rng_range(r, 1, 2));
     plan_knob(p, "alloc.reuse", rng_range(r, 0, 2));
     gen_constructor(p, r, 0, 1, hard, big);
